@@ -328,9 +328,9 @@ func probes() []probe {
 		},
 		{
 			name: "resume-on-command-boundary", finding: findingKeepsTail, status: "open",
-			what: "leader log of ~640 KiB in which a command ends exactly at offset 524288; the follower (an exact copy) reconnects: the verified prefix (one window) ends on a command boundary, which followCheckSome reports as 'aof fully intact'; nothing is truncated, the follower asks AOF 524288, re-applies the last 116 KiB on top of its dataset over a slow link, appends them to its log again and claims caught_up after the first command",
+			what: "leader log of ~860 KiB in which a command ends exactly at offset 524288; the follower (an exact copy) reconnects: the verified prefix (one window) ends on a command boundary, which followCheckSome reports as 'aof fully intact'; nothing is truncated, the follower asks AOF 524288, re-applies everything behind it on top of its dataset over a slow link, appends them to its log again and claims caught_up after the first command",
 			spec: caseSpec{Init: initEmpty, FirstSync: true, Settle: true,
-				Pre:     append(padsExactly("pad", window), padsCycling("pad", 4, 29000, 1)...),
+				Pre:     append(padsExactly("pad", window), padsCycling("pad", 12, 29000, 1)...),
 				TailCut: true, TailDelayMs: 100, TailChunk: 4096, TailGapMs: 20},
 		},
 		{
